@@ -856,6 +856,12 @@ def c06(run, an=None):
                 out.append(V("C06", "refusal-left-trace", f"{a.raw} -> {b.raw}", step=st.idx))
         if any(re.match(r"ret (poll|recv|drive) err Resource.InflightExhausted", e) for e in st.events):
             out.append(V("C06", "qos2-exchange-dropped", "InflightExhausted while processing an acknowledgement", step=st.idx))
+        # "refused locally with the not-ready error": when the window is full (quota 0 by the books) AND the
+        # eight retained slots are full, the crate's slot check comes first and the refusal is
+        # InflightExhausted (known finding F27; nothing is left behind either way)
+        if st.op == "publish" and prev is not None and prev.state is not None and prev.state.live == "1" and prev.state.q == 0 \
+                and any(e.startswith("ret publish err Resource.InflightExhausted") for e in st.events):
+            out.append(V("C06", "beyond-window-refusal-is-not-notready", f"publish beyond the window (quota 0 of {prev.state.qmax}, {len(prev.state.ret)} retained) refused with InflightExhausted", step=st.idx, finding="F27"))
         # the remaining quota never exceeds the negotiated maximum (QuotaP; C06_quota_books_balance): a
         # quota above it lets the client start more exchanges than the broker's Receive Maximum, whatever
         # has been replayed (this is not the F5c history: there the quota is 0)
